@@ -88,6 +88,80 @@ def cps(s):
     return (str(len(s)) + ' ' + ' '.join(str(ord(c)) for c in s)).strip()
 
 
+def coq_float(x):
+    """a Coq term (float_scope) denoting exactly the float x"""
+    if x != x:
+        return 'nan'
+    if x == float('inf'):
+        return 'infinity'
+    if x == float('-inf'):
+        return 'neg_infinity'
+    h = x.hex()
+    return '(%s)' % h if h.startswith('-') else h
+
+
+def float_tok_bits(tok):
+    """wire token of a float -> the integer float_bits gives inside Coq (-1 for NaN)"""
+    return -1 if tok == 'nan' else int(tok, 16)
+
+
+def parse_coq_list2(out):
+    """parse the `= [[a; b]; [c]] : list (list Z)` printed by Eval vm_compute"""
+    body = out[out.index('='):]
+    body = body[:body.rindex(': list')]
+    res, cur, num, depth = [], None, '', 0
+    for ch in body:
+        if ch == '[':
+            depth += 1
+            if depth == 2:
+                cur = []
+        elif ch in ';]':
+            if num and cur is not None:
+                cur.append(int(num))
+            num = ''
+            if ch == ']':
+                if depth == 2:
+                    res.append(cur); cur = None
+                depth -= 1
+        elif ch in '-0123456789':
+            num += ch
+    return res
+
+
+def extraction_crosscheck(prop, pid, cases, model, k=None):
+    """Evaluate a sample of this run's cases INSIDE Coq (vm_compute on the same Gallina definitions that were
+    extracted) and compare with what the extracted executable printed.  Needs prop.coq_term(case) -> Coq term of
+    type `list Z` (or None to skip the case), prop.encode_result(case, model_line) -> list of ints, prop.COQ_IMPORTS."""
+    if not hasattr(prop, 'coq_term'):
+        return None
+    k = k or getattr(prop, 'XCHECK_N', 150)
+    idx = [i for i, c in enumerate(cases) if prop.coq_term(c) is not None]
+    if not idx:
+        return None
+    if len(idx) > k:                       # k evenly spaced eligible cases, first and last included
+        idx = [idx[(j * (len(idx) - 1)) // max(1, k - 1)] for j in range(k)]
+    mods = ['Base.FloatBits'] + prop.COQ_IMPORTS.split()
+    ok, log = coq_build(' '.join(m.replace('.', '/') + '.vo' for m in mods))
+    if not ok:
+        return {'ok': False, 'checked': 0, 'error': log[-600:]}
+    d = os.path.join(BUILD, 'xcheck')
+    os.makedirs(d, exist_ok=True)
+    f = os.path.join(d, pid + '_x.v')
+    terms = ';\n  '.join(prop.coq_term(cases[i]) for i in idx)
+    open(f, 'w').write('From Coq Require Import ZArith Floats List.\nImport ListNotations.\n'
+                       'From SV Require Import Base.Num Base.Outcome Base.FloatBits %s.\n'
+                       'Open Scope Z_scope.\nDefinition xs : list (list Z) := [\n  %s].\nEval vm_compute in xs.\n'
+                       % (prop.COQ_IMPORTS, terms))
+    rc, out = sh('timeout 900 coqc -Q %s SV %s %s' % (COQ, COQW, f), cwd=d, timeout=930)
+    if rc != 0:
+        return {'ok': False, 'checked': 0, 'error': out[-600:]}
+    got = parse_coq_list2(out)
+    exp = [prop.encode_result(cases[i], model[i]) for i in idx]
+    bad = [(cases[i].line, g, e) for i, g, e in zip(idx, got, exp) if g != e]
+    return {'ok': not bad and len(got) == len(exp), 'checked': len(exp), 'disagreements': len(bad),
+            'first': (bad[0][0][:200], str(bad[0][1])[:200], str(bad[0][2])[:200]) if bad else None}
+
+
 # ----------------------------------------------------------------- build steps
 def regen_consts():
     """tools/extract_consts.py rewrites coq/Gen/Consts.v from /repo (only if content changes)"""
@@ -459,6 +533,13 @@ def run_check(prop, argv):
             elif not compare(c, i, m):
                 mism.append((c, i, m, profile))
 
+    xc = None
+    if cases and model and mok and not replay:
+        xc = extraction_crosscheck(prop, pid, cases, model)
+        if xc and not xc['ok']:
+            proof_ok = False
+            notes.append('extraction cross-check failed: %s' % json.dumps(xc)[:400])
+
     os.makedirs(os.path.join(ROOT, 'replays'), exist_ok=True)
 
     def write_replay(kind, payload):
@@ -486,7 +567,10 @@ def run_check(prop, argv):
     elif mism or not proof_ok or not hok or not mok:
         what = []
         payload = {'property': pid, 'kind': 'no-longer-shown-to-hold', 'cases': []}
-        if not proof_ok:
+        if xc and not xc['ok']:
+            what.append('extracted executable disagrees with vm_compute on the same definitions')
+            payload['extraction_crosscheck'] = xc
+        if not proof_ok and not (xc and not xc['ok'] and pf['ok'] and not hits):
             what.append('theorems of coq/Properties/%s.v no longer check' % pid)
             payload['proof'] = {'theorems': pf['theorems'], 'disallowed_axioms': pf['disallowed'],
                                 'forbidden': hits, 'log_tail': pf['log'][-1500:]}
@@ -538,6 +622,10 @@ def run_check(prop, argv):
         ev['coverage'].update(extra())
     if chk:
         ev['coverage']['coqchk'] = chk['summary'][-600:]
+    if xc:
+        ev['coverage']['extraction_crosscheck'] = {'cases_evaluated_inside_coq_by_vm_compute': xc['checked'],
+                                                   'disagreements_with_extracted_executable': xc.get('disagreements', None),
+                                                   'ok': xc['ok']}
     if notes:
         ev['coverage']['notes'] = notes
     os.makedirs(os.path.join(ROOT, 'evidence'), exist_ok=True)
